@@ -106,3 +106,14 @@ mut("snap-cols-swapped", ["C11"], [(SQL, "let snapshot_timestamp: Option<i64> = 
 mut("snap-crosscheck-removed", ["C11"], [(SQL, "            if v != version_id {\n                return Err(anyhow::anyhow!(\"unexpected snapshot_version_id\"));\n            }\n", "            let _ = v;\n")], "C11.READ", "cross-check removed")
 mut("snap-data-second-txn", ["C11", "C03"], [(SRV, "            txn.get_snapshot_data(snap.version_id)?\n                .map(|data| (snap.version_id, data))", "            { drop(txn); let mut txn2 = self.storage.txn(client_id)?; txn2.get_snapshot_data(snap.version_id)? }\n                .map(|data| (snap.version_id, data))")], "C11", "data read in a second transaction")
 mut("snap-millis", ["C11", "C19"], [(SQL, "snapshot.timestamp.timestamp(),", "snapshot.timestamp.timestamp_millis(),")], "C11.WRITE", "milliseconds written")
+
+# ---- C12
+mut("d2-revert-versions", ["C12"], [(SRV, "        let high = config\n            .snapshot_versions\n            .saturating_add(config.snapshot_versions / 2);", "        let high = config.snapshot_versions * 3 / 2;")], "C12.NOFAIL", "original defect D2")
+mut("thr-saturating-mul", ["C12"], [(SRV, "        let high = config\n            .snapshot_days\n            .saturating_add(config.snapshot_days / 2);", "        let high = config.snapshot_days.saturating_mul(3) / 2;")], "C12.ORDER", "saturating_mul(3)/2 drops below the target for large targets")
+mut("thr-wrapping", ["C12"], [(SRV, "        let high = config\n            .snapshot_days\n            .saturating_add(config.snapshot_days / 2);", "        let high = config.snapshot_days.wrapping_mul(3) / 2;")], "C12.ORDER", "wrapping arithmetic")
+mut("thr-double", ["C12"], [(SRV, "        let high = config\n            .snapshot_days\n            .saturating_add(config.snapshot_days / 2);", "        let high = config.snapshot_days.saturating_add(config.snapshot_days);")], "C12.FACTOR", "high threshold is 2x")
+mut("urg-min", ["C12"], [(SRV, "std::cmp::max(time_urgency, version_urgency),", "std::cmp::min(time_urgency, version_urgency),")], "C12.MAX", "min for max")
+mut("urg-swapped-arms", ["C12"], [(SRV, "        if days >= high {\n            SnapshotUrgency::High\n        } else if days >= config.snapshot_days {\n            SnapshotUrgency::Low", "        if days >= high {\n            SnapshotUrgency::Low\n        } else if days >= config.snapshot_days {\n            SnapshotUrgency::High")], "C12.SHAPE", "outcomes swapped")
+mut("cnt-sqlite-no-increment", ["C12", "C13", "C02"], [(SQL, "               latest_version_id = ?,\n               versions_since_snapshot = versions_since_snapshot + 1\n", "               latest_version_id = ?\n")], "C02.CNT", "sqlite forgets the counter")
+mut("cnt-mem-no-increment", ["C12", "C13"], [(MEM, "            if let Some(ref mut snap) = client.snapshot {\n                snap.versions_since += 1;\n            }\n", "")], "C02.CNT", "in-memory forgets the counter")
+mut("urg-reread-client", ["C12"], [(SRV, "        // calculate the urgency\n        let time_urgency = match client.snapshot {", "        // calculate the urgency\n        let client = self.storage.txn(client_id)?.get_client()?.ok_or(ServerError::NoSuchClient)?;\n        let time_urgency = match client.snapshot {")], "C12.MAX", "urgency from a re-read client")
